@@ -2,6 +2,7 @@
 import re
 from lib.rules import arg_desc, who_calls, field_writes, writers_of_field, arg_path, user_local_of, G, require_guards
 from lib.tables import enumerate_paths, describe
+from lib.facts import norm, path_matches
 
 from lib.rules import owned_by  # noqa: E402
 
@@ -138,6 +139,15 @@ def _eval_bound(d, keep):
 
 def rule_abstract(ctx):
     b = ctx.body('payload::history::PayloadHistory::push_delta')
+    # functions that assign PayloadDelta.serial after construction (none on the reference tree)
+    serial_setters = sorted(set(w[0].nid.split('::{')[0] for w in writers_of_field(ctx, 'payload::delta::PayloadDelta')
+                                if w[3] == 'serial' and w[2] == 'assign'))
+    for w in serial_setters:
+        cs = ctx.facts.callers(w)
+        ctx.check(bool(cs) and all(c.body.nid.split('::{')[0].endswith('PayloadHistory::push_delta') for c in cs), 'K3',
+                  'PayloadDelta.serial:reassigned-only-in-push_delta:%s' % w, 'serial re-assignment is part of the modelled push',
+                  'PayloadDelta.serial is re-assigned in %s, called from %s: the serial of a delta is fixed at construction (current serial + 1)'
+                  % (w, sorted(set(c.body.nid for c in cs))))
     paths = enumerate_paths(b, ctx.facts, max_visits=3)
     prog = []
     for p in paths:
@@ -170,6 +180,9 @@ def rule_abstract(ctx):
             if nm in ('pop_back', 'pop_front', 'push_front', 'push_back', 'truncate', 'clear'):
                 arg = arg_desc(s, 1) if len(s.term['args']) > 1 else None
                 evs.append((nm, arg, s.bb))
+            elif any(path_matches(norm(s.callee), w) for w in serial_setters):
+                # the delta's serial is re-assigned inside push_delta: modelled (value = arg)
+                evs.append(('set_serial', arg_desc(s, 1) if len(s.term['args']) > 1 else None, s.bb))
         # timeline: conditions and queue operations in path order
         cq, eq = {}, {}
         ci = 0
@@ -194,55 +207,58 @@ def rule_abstract(ctx):
 
     def rel(a, b):
         return 'Less' if a < b else ('Equal' if a == b else 'Greater')
-    worst = 0
-    for keep in range(0, 6):
-        ln = 0
-        for step in range(40):
-            # choose the path whose conditions hold, evaluating them in order with the evolving len
-            chosen = None
-            for conds, evs, timeline in prog:
-                sim = ln
-                ok = True
-                for what, x in timeline:
-                    if what == 'cond':
-                        kind, c = x
-                        if kind == 'lenkeep':
-                            holds = rel(sim, keep) in c
-                        elif kind == 'empty':
-                            holds = (sim == 0) == c
-                        else:
-                            holds = rel(sim, _eval_bound(c[0], keep)) in c[1]
-                        if not holds:
-                            ok = False
-                            break
-                    else:
-                        nm, arg = x
-                        if nm in ('pop_back', 'pop_front'):
-                            sim = max(sim - 1, 0)
-                        elif nm in ('push_front', 'push_back'):
-                            sim += 1
-                        elif nm == 'truncate':
-                            sim = min(sim, keep if (arg and 'keep' in arg) else sim)
-                        elif nm == 'clear':
-                            sim = 0
-                if ok:
-                    chosen = (conds, evs)
-                    break
-            if chosen is None:
-                ctx.bad('AI', 'push_delta:no-path:keep=%d,len=%d' % (keep, ln), 'no path of push_delta is enabled for len=%d keep=%d' % (ln, keep))
-                return
-            for nm, arg in chosen[1]:
-                if nm in ('pop_back', 'pop_front'):
-                    ln = max(ln - 1, 0)
-                elif nm in ('push_front', 'push_back'):
-                    ln += 1
+
+    def run(timeline, q, keep, new_serial):
+        """-> (queue after the call | None if a condition fails, why)"""
+        q = list(q)
+        d = new_serial
+        for what, x in timeline:
+            if what == 'cond':
+                kind, c = x
+                if kind == 'lenkeep':
+                    holds = rel(len(q), keep) in c
+                elif kind == 'empty':
+                    holds = (len(q) == 0) == c
+                else:
+                    holds = rel(len(q), _eval_bound(c[0], keep)) in c[1]
+                if not holds:
+                    return None
+            else:
+                nm, arg = x
+                if nm == 'pop_back':
+                    q = q[:-1]
+                elif nm == 'pop_front':
+                    q = q[1:]
+                elif nm == 'push_front':
+                    q = [d] + q
+                elif nm == 'push_back':
+                    q = q + [d]
                 elif nm == 'truncate':
-                    lim = keep if (arg and 'keep' in arg) else ln
-                    ln = min(ln, lim)
+                    q = q[:keep] if (arg and 'keep' in arg) else q
                 elif nm == 'clear':
-                    ln = 0
+                    q = []
+                elif nm == 'set_serial':
+                    if arg and re.match(r'^call:Serial::add\(call:PayloadHistory::serial\(self\),const\(1\)\)$', arg):
+                        d = (q[0] if q else 0) + 1      # serial() at this point of the call
+                    else:
+                        d = None
+        return q
+    for keep in range(0, 6):
+        q = []
+        for step in range(40):
+            cur = q[0] if q else 0
+            # choose the path whose conditions hold, evaluating them in order with the evolving queue
+            nq = None
+            for conds, evs, tl in prog:
+                nq = run(tl, q, keep, cur + 1)
+                if nq is not None:
+                    break
+            if nq is None:
+                ctx.bad('AI', 'push_delta:no-path:keep=%d,len=%d' % (keep, len(q)), 'no path of push_delta is enabled for len=%d keep=%d' % (len(q), keep))
+                return
+            q = nq
+            ln = len(q)
             bound = max(keep, 1)
-            worst = max(worst, ln)
             if ln > bound:
                 ctx.bad('AI', 'push_delta:bounded:keep=%d' % keep,
                         'abstract run with history-size %d: after %d pushes the queue holds %d deltas (> max(keep,1)=%d): the history is '
@@ -253,9 +269,14 @@ def rule_abstract(ctx):
                         'abstract run with history-size %d: after a push the queue is empty, so serial() (taken from deltas.front()) does '
                         'not advance although the data changed' % keep, loc=b.file + ':%d' % b.line)
                 break
+            if q[0] != cur + 1:
+                ctx.bad('AI', 'push_delta:serial-steps-by-one:keep=%d' % keep,
+                        'abstract run with history-size %d: change no. %d moves serial() from %d to %s instead of %d: the serial does not '
+                        'advance by exactly one per change' % (keep, step + 1, cur, q[0], cur + 1), loc=b.file + ':%d' % b.line)
+                break
         else:
-            ctx.ok('AI', 'push_delta:invariant:keep=%d' % keep, '1 <= len <= max(keep,1) holds for 40 abstract steps (history-size %d)' % keep)
-        ctx.sample(dict(history_size=keep, final_len=ln))
+            ctx.ok('AI', 'push_delta:invariant:keep=%d' % keep, '1 <= len <= max(keep,1) and serial() steps by one for 40 abstract steps (history-size %d)' % keep)
+        ctx.sample(dict(history_size=keep, final_len=len(q)))
     # the pushed element goes to the front
     for s in b.calls(['VecDeque::push_front', 'VecDeque::push_back']):
         ctx.check(s.callee.endswith('push_front'), 'AI', 'push_delta:pushes-front', 'new delta goes to the front (defines the serial)', 'new delta pushed at the back', loc=s.loc())
